@@ -39,6 +39,29 @@ def _scalar_mul(d1: jax.Array, d2: jax.Array) -> jax.Array:
     return jnp.stack([A, B, C, D], axis=-1).astype(d1.dtype)
 
 
+def _reduce_pow2(coeffs: jax.Array, power: jax.Array) -> tuple[jax.Array, jax.Array]:
+    """Divide out the largest power of two common to all four coefficients.
+
+    Closed form of :meth:`ExactScalarArray.reduce`: the common power of two is the
+    number of trailing zero bits of ``a | b | c | d``. Zero is left unchanged.
+    """
+    m = coeffs[..., 0] | coeffs[..., 1] | coeffs[..., 2] | coeffs[..., 3]
+    tz = lax.population_count((m & -m) - 1)
+    tz = jnp.where(m == 0, 0, tz).astype(power.dtype)
+    return coeffs >> tz[..., None].astype(coeffs.dtype), power + tz
+
+
+def _scalar_mul_reduced(
+    x: tuple[jax.Array, jax.Array], y: tuple[jax.Array, jax.Array]
+) -> tuple[jax.Array, jax.Array]:
+    """Multiply two (coeffs, power) pairs and reduce the result.
+
+    Reducing after every multiplication keeps the coefficients small, so that long
+    products (e.g. many factors of 2 or 1+i) do not overflow int32.
+    """
+    return _reduce_pow2(_scalar_mul(x[0], y[0]), x[1] + y[1])
+
+
 def _scalar_to_complex(data: jax.Array) -> jax.Array:
     """Convert a (N, 4) array of coefficients to a (N,) array of complex numbers."""
     return data[..., 0] + data[..., 1] * _E4 + data[..., 2] * 1j + data[..., 3] * _E4D
@@ -143,9 +166,11 @@ class ExactScalarArray(eqx.Module):
 
             return ExactScalarArray(result_coeffs, result_power)
 
-        scanned = lax.associative_scan(_scalar_mul, self.coeffs, axis=axis)
-        result_coeffs = jnp.take(scanned, indices=-1, axis=axis)
-        result_power = jnp.sum(self.power, axis=axis)
+        scanned_coeffs, scanned_power = lax.associative_scan(
+            _scalar_mul_reduced, (self.coeffs, self.power), axis=axis
+        )
+        result_coeffs = jnp.take(scanned_coeffs, indices=-1, axis=axis)
+        result_power = jnp.take(scanned_power, indices=-1, axis=axis)
 
         return ExactScalarArray(result_coeffs, result_power)
 
